@@ -427,6 +427,15 @@ impl Engine for Partlog {
         }
         out
     }
+    /// KF-C03-1 can only arise when the harness does NOT save the buffers itself before a no-wait shutdown
+    /// (the unmasked mode): the tag ties the finding's signature to that mode
+    fn context_tags(&self, p: &Params) -> Vec<String> {
+        if p.masked("KF-C03-1") {
+            vec![]
+        } else {
+            vec!["shutdown:buffers-not-presaved".into()]
+        }
+    }
     fn rule(&self, p: &Params) -> String {
         rule_text(p)
     }
